@@ -57,6 +57,43 @@ type peerInfo struct {
 type baseStream struct {
 	ctx    context.Context
 	cancel context.CancelFunc
+	// back-pressure: while gated, every Send parks until the script opens the gate
+	gmu    sync.Mutex
+	gated  bool
+	gate   chan struct{}
+	parked bool
+}
+
+func (b *baseStream) arm() {
+	b.gmu.Lock()
+	b.gated, b.gate = true, make(chan struct{})
+	b.gmu.Unlock()
+}
+func (b *baseStream) open() {
+	b.gmu.Lock()
+	if b.gated {
+		b.gated = false
+		close(b.gate)
+	}
+	b.gmu.Unlock()
+}
+func (b *baseStream) isGated() bool  { b.gmu.Lock(); defer b.gmu.Unlock(); return b.gated }
+func (b *baseStream) isParked() bool { b.gmu.Lock(); defer b.gmu.Unlock(); return b.parked }
+
+// flow blocks the caller (the relay goroutine inside strm.Send) while the gate is closed.
+func (b *baseStream) flow() {
+	b.gmu.Lock()
+	if !b.gated {
+		b.gmu.Unlock()
+		return
+	}
+	g := b.gate
+	b.parked = true
+	b.gmu.Unlock()
+	<-g
+	b.gmu.Lock()
+	b.parked = false
+	b.gmu.Unlock()
 }
 
 func (b *baseStream) Context() context.Context      { return b.ctx }
@@ -78,7 +115,17 @@ type lcall struct {
 	w    *world
 }
 
-func (l *lcall) Send(m *signaling.ListenResponse) error {
+func (l *lcall) Send(m0 *signaling.ListenResponse) error {
+	l.flow()
+	// wire fidelity: what the client sees is the marshalled message
+	data, err := m0.MarshalVT()
+	if err != nil {
+		return err
+	}
+	m := &signaling.ListenResponse{}
+	if err := m.UnmarshalVT(data); err != nil {
+		return err
+	}
 	l.mu.Lock()
 	defer l.mu.Unlock()
 	switch b := m.GetBody().(type) {
@@ -105,7 +152,7 @@ type scall struct {
 	src      int
 	dst      int // -1 when the init was invalid
 	valid    bool
-	reqCh    chan *signaling.SessionRequest
+	reqCh    chan []byte
 	closed   chan struct{}
 	closedMu sync.Once
 	mu       sync.Mutex
@@ -117,7 +164,8 @@ type scall struct {
 	w        *world
 }
 
-func (s *scall) Recv() (*signaling.SessionRequest, error) {
+// next returns the next packet of the client, as bytes.
+func (s *scall) next() ([]byte, error) {
 	select {
 	case r := <-s.reqCh:
 		return r, nil
@@ -130,15 +178,35 @@ func (s *scall) Recv() (*signaling.SessionRequest, error) {
 		return nil, errStream
 	}
 }
-func (s *scall) RecvTo(m *signaling.SessionRequest) error {
-	r, err := s.Recv()
+
+// MsgRecv behaves like a real srpc stream: it unmarshals the packet INTO the
+// object passed by the callee (protobuf merge semantics, no reset).
+func (s *scall) MsgRecv(msg srpc.Message) error {
+	data, err := s.next()
 	if err != nil {
 		return err
 	}
-	*m = *r //nolint
-	return nil
+	return msg.UnmarshalVT(data)
 }
-func (s *scall) Send(m *signaling.SessionResponse) error {
+func (s *scall) Recv() (*signaling.SessionRequest, error) {
+	m := new(signaling.SessionRequest)
+	if err := s.MsgRecv(m); err != nil {
+		return nil, err
+	}
+	return m, nil
+}
+func (s *scall) RecvTo(m *signaling.SessionRequest) error { return s.MsgRecv(m) }
+func (s *scall) Send(m0 *signaling.SessionResponse) error {
+	s.flow()
+	// wire fidelity: marshal when the stream accepts the message, record what a client would decode
+	data, err := m0.MarshalVT()
+	if err != nil {
+		return err
+	}
+	m := &signaling.SessionResponse{}
+	if err := m.UnmarshalVT(data); err != nil {
+		return err
+	}
 	s.mu.Lock()
 	defer s.mu.Unlock()
 	switch b := m.GetBody().(type) {
@@ -163,6 +231,7 @@ func (s *scall) closeStream()                                   { s.closedMu.Do(
 // minfo is what the harness knows about a SessionMsg it constructed.
 type minfo struct {
 	tag      int
+	key      string // marshalled bytes
 	kind     string // good foreign tampered wrongctx unsigned spoofed
 	signer   int    // key that really signed (index), -1 none
 	seqno    uint64
@@ -184,7 +253,8 @@ type world struct {
 	lcalls []*lcall
 	scalls []*scall
 	msgs   []*minfo
-	byPtr  map[*signaling.SessionMsg]*minfo
+	byKey  map[string]*minfo // bytes of a SessionMsg -> its latest submission
+	tagOf  map[string]int
 	ops    []string
 	descs  []string
 	sizes  [][3]int
@@ -209,7 +279,7 @@ func (d detReader) Read(p []byte) (int, error) {
 }
 
 func newWorld(c *hx.Ctx, np int) *world {
-	w := &world{c: c, rng: c.Rng, idx: map[string]int{}, byPtr: map[*signaling.SessionMsg]*minfo{}, failed: map[string]bool{}}
+	w := &world{c: c, rng: c.Rng, idx: map[string]int{}, byKey: map[string]*minfo{}, tagOf: map[string]int{}, failed: map[string]bool{}}
 	for i := 0; i < np; i++ {
 		priv, _, err := crypto.GenerateKeyPairWithReader(crypto.KeyType_Ed25519, 0, detReader{c.Rng})
 		if err != nil {
@@ -260,12 +330,12 @@ func (w *world) fingerprint() string {
 	var sb strings.Builder
 	for _, l := range w.lcalls {
 		l.mu.Lock()
-		fmt.Fprintf(&sb, "L%d:%d:%v;", l.id, len(l.out), l.done)
+		fmt.Fprintf(&sb, "L%d:%d:%v:%v;", l.id, len(l.out), l.done, l.isParked())
 		l.mu.Unlock()
 	}
 	for _, s := range w.scalls {
 		s.mu.Lock()
-		fmt.Fprintf(&sb, "S%d:%d:%v:%d;", s.id, len(s.out), s.done, len(s.reqCh))
+		fmt.Fprintf(&sb, "S%d:%d:%v:%d:%v;", s.id, len(s.out), s.done, len(s.reqCh), s.isParked())
 		s.mu.Unlock()
 	}
 	sb.WriteString(w.srv.VerifState().Fingerprint())
@@ -353,7 +423,7 @@ func (w *world) listenStart(p int) {
 	ctx, cancel := context.WithCancel(context.WithValue(context.Background(), ctxKey{}, w.peers[p].id))
 	l := &lcall{baseStream: baseStream{ctx: ctx, cancel: cancel}, id: len(w.lcalls), p: p, w: w}
 	w.lcalls = append(w.lcalls, l)
-	w.record(hx.App("ListenStart", nat(l.id), nat(p)), fmt.Sprintf("L%d=Listen(p%d)", l.id, p))
+	w.record(act("ListenStart", nat(l.id), nat(p)), fmt.Sprintf("L%d=Listen(p%d)", l.id, p))
 	go func() {
 		err := w.srv.Listen(&signaling.ListenRequest{}, l)
 		l.mu.Lock()
@@ -364,7 +434,7 @@ func (w *world) listenStart(p int) {
 }
 
 func (w *world) listenCancel(l *lcall) {
-	w.record(hx.App("ListenEnd", nat(l.id)), fmt.Sprintf("cancel L%d", l.id))
+	w.record(act("ListenEnd", nat(l.id)), fmt.Sprintf("cancel L%d", l.id))
 	l.cancel()
 	w.afterOp()
 }
@@ -379,18 +449,19 @@ type reqSpec struct {
 func (w *world) sessStart(src int, seq uint64, r reqSpec, dst int, valid bool) *scall {
 	ctx, cancel := context.WithCancel(context.WithValue(context.Background(), ctxKey{}, w.peers[src].id))
 	s := &scall{baseStream: baseStream{ctx: ctx, cancel: cancel}, id: len(w.scalls), src: src, dst: dst, valid: valid,
-		reqCh: make(chan *signaling.SessionRequest, 64), closed: make(chan struct{}), w: w}
+		reqCh: make(chan []byte, 64), closed: make(chan struct{}), w: w}
 	w.scalls = append(w.scalls, s)
-	w.record(hx.App("SessStart", nat(s.id), nat(src), nat(int(seq)), r.term),
+	w.record(act("SessStart", nat(s.id), nat(src), nat(int(seq)), r.term),
 		fmt.Sprintf("S%d=Session(p%d) first{seq=%d %s}", s.id, src, seq, r.desc))
 	if r.req == nil {
 		s.closeStream()
 	} else {
 		r.req.SessionSeqno = seq
-		s.reqCh <- r.req
+		s.reqCh <- wire(r.req)
 	}
 	if r.mi != nil {
 		r.mi.call, r.mi.subSeq = s.id, seq
+		w.byKey[r.mi.key] = r.mi
 	}
 	go func() {
 		err := w.srv.Session(s)
@@ -419,10 +490,11 @@ func (w *world) epochOf(s *scall) (uint64, bool) {
 }
 
 func (w *world) sessReq(s *scall, seq uint64, r reqSpec) {
-	w.record(hx.App("SessReq", nat(s.id), nat(int(seq)), r.term), fmt.Sprintf("S%d<-{seq=%d %s}", s.id, seq, r.desc))
+	w.record(act("SessReq", nat(s.id), nat(int(seq)), r.term), fmt.Sprintf("S%d<-{seq=%d %s}", s.id, seq, r.desc))
 	if r.mi != nil {
 		r.mi.call, r.mi.subSeq = s.id, seq
 		r.mi.subEpoch, r.mi.hadSess = w.epochOf(s)
+		w.byKey[r.mi.key] = r.mi
 		s.lastSent = r.mi
 		if r.mi.kind == "good" {
 			s.lastGood = r.mi
@@ -435,11 +507,11 @@ func (w *world) sessReq(s *scall, seq uint64, r reqSpec) {
 		s.closeStream()
 	} else {
 		r.req.SessionSeqno = seq
-		s.reqCh <- r.req
+		s.reqCh <- wire(r.req)
 	}
 	w.afterOp()
 	// C20 clauses on the epoch, straight from the property text
-	if had && r.req != nil && r.req.GetInit() == nil && r.req.GetBody() != nil {
+	if had && !s.isGated() && r.req != nil && r.req.GetInit() == nil && r.req.GetBody() != nil {
 		good := r.mi == nil || (r.mi.kind == "good")
 		if seq > ep && good && !s.isDone() {
 			w.fail("C20", "future-epoch-not-rejected", fmt.Sprintf("request with session seqno %d > relay epoch %d did not end the call", seq, ep))
@@ -450,6 +522,33 @@ func (w *world) sessReq(s *scall, seq uint64, r reqSpec) {
 			}
 		}
 	}
+}
+
+func wire(r *signaling.SessionRequest) []byte {
+	b, err := r.MarshalVT()
+	if err != nil {
+		panic(err)
+	}
+	return b
+}
+
+func msgKey(m *signaling.SessionMsg) string {
+	b, err := m.MarshalVT()
+	if err != nil {
+		panic(err)
+	}
+	return string(b)
+}
+
+// register gives byte-identical messages the same tag (the relay sees bytes).
+func (w *world) register(mi *minfo) {
+	mi.key = msgKey(mi.msg)
+	if t, ok := w.tagOf[mi.key]; ok {
+		mi.tag = t
+	} else {
+		w.tagOf[mi.key] = mi.tag
+	}
+	w.msgs = append(w.msgs, mi)
 }
 
 func (w *world) totalOut() int {
@@ -467,8 +566,76 @@ func (w *world) totalOut() int {
 	return n
 }
 
+func (w *world) gateL(l *lcall) {
+	w.record(hx.App("GateL", nat(l.id)), fmt.Sprintf("gate L%d (its Sends block)", l.id))
+	l.arm()
+	w.afterOp()
+}
+func (w *world) gateS(s *scall) {
+	w.record(hx.App("GateS", nat(s.id)), fmt.Sprintf("gate S%d (its Sends block)", s.id))
+	s.arm()
+	w.afterOp()
+}
+func (w *world) openL(l *lcall) {
+	w.record(hx.App("OpenL", nat(l.id)), fmt.Sprintf("open gate L%d", l.id))
+	l.open()
+	w.afterOp()
+}
+func (w *world) openS(s *scall) {
+	w.record(hx.App("OpenS", nat(s.id)), fmt.Sprintf("open gate S%d", s.id))
+	s.open()
+	w.afterOp()
+}
+func (w *world) anyGated() bool {
+	for _, l := range w.lcalls {
+		if l.isGated() {
+			return true
+		}
+	}
+	for _, s := range w.scalls {
+		if s.isGated() {
+			return true
+		}
+	}
+	return false
+}
+func (w *world) openAll() {
+	for _, l := range w.lcalls {
+		if l.isGated() {
+			w.openL(l)
+		}
+	}
+	for _, s := range w.scalls {
+		if s.isGated() {
+			w.openS(s)
+		}
+	}
+}
+
+// calls that are live and not gated: only these are cancelled or sent
+// error-producing requests (a parked call cannot observe them in a
+// deterministic order)
+func (w *world) freeS() []*scall {
+	var o []*scall
+	for _, s := range w.liveS() {
+		if !s.isGated() {
+			o = append(o, s)
+		}
+	}
+	return o
+}
+func (w *world) freeL() []*lcall {
+	var o []*lcall
+	for _, l := range w.liveL() {
+		if !l.isGated() {
+			o = append(o, l)
+		}
+	}
+	return o
+}
+
 func (w *world) sessCancel(s *scall) {
-	w.record(hx.App("SessEnd", nat(s.id), "true"), fmt.Sprintf("cancel S%d", s.id))
+	w.record(act("SessEnd", nat(s.id), "true"), fmt.Sprintf("cancel S%d", s.id))
 	s.cancel()
 	w.afterOp()
 }
@@ -518,8 +685,7 @@ func (w *world) newMsg(signer int, kind string, seqno uint64) *minfo {
 	mi.ver = verr == nil
 	mi.from = w.pidx(from.String())
 	mi.msg = m
-	w.msgs = append(w.msgs, mi)
-	w.byPtr[m] = mi
+	w.register(mi)
 	return mi
 }
 
@@ -567,8 +733,7 @@ func (w *world) derive(base *minfo, how string) *minfo {
 	if (how == "reseq" || how == "same") && base.kind == "good" {
 		mi.kind = "good"
 	}
-	w.msgs = append(w.msgs, mi)
-	w.byPtr[m] = mi
+	w.register(mi)
 	return mi
 }
 
@@ -641,6 +806,8 @@ func (w *world) oracle(st sigsrv.VerifSnapshot) {
 			open[pair{s.src, s.dst}] = append(open[pair{s.src, s.dst}], s)
 		}
 	}
+	// the clauses about quiescent states are evaluated only when no stream is gated
+	if !w.anyGated() {
 	// C25: one session per ordered pair, one listen per peer, replaced calls end with the replaced error
 	for k, l := range open {
 		if len(l) > 1 {
@@ -741,6 +908,7 @@ func (w *world) oracle(st sigsrv.VerifSnapshot) {
 			}
 		}
 	}
+	}
 	// per delivered message: C20 authenticity/routing and C22 no cross-epoch delivery
 	for _, s := range w.scalls {
 		s.mu.Lock()
@@ -772,7 +940,7 @@ func (w *world) oracle(st sigsrv.VerifSnapshot) {
 					w.fail("C22", "cross-epoch-clear", fmt.Sprintf("S%d got ClearMsg(%d) in epoch open=%v %d without a RecvMsg %d in that epoch", s.id, r.n, curOpen, curEp, r.n))
 				}
 			case 4:
-				mi := w.byPtr[r.m]
+				mi := w.byKey[msgKey(r.m)]
 				if mi == nil {
 					w.fail("C20", "forwarded-unknown-message", fmt.Sprintf("S%d received a message no client submitted", s.id))
 					continue
@@ -807,6 +975,7 @@ func (w *world) oracle(st sigsrv.VerifSnapshot) {
 }
 
 func nat(v int) string { return strconv.Itoa(v) }
+func act(ctor string, args ...string) string { return hx.App("Act", hx.App(ctor, args...)) }
 func natList(l []int) string {
 	items := make([]string, len(l))
 	for i, b := range l {
@@ -857,13 +1026,13 @@ func (w *world) liveL() []*lcall {
 }
 
 // weights per property: listen, attach, valid traffic, malicious traffic, detach
-type profile struct{ listen, attach, traffic, evil, stateful, detach, badStart int }
+type profile struct{ listen, attach, traffic, evil, stateful, detach, badStart, gate int }
 
 var profiles = map[string]profile{
-	"C20": {listen: 1, attach: 5, traffic: 8, evil: 6, stateful: 6, detach: 2, badStart: 2},
-	"C22": {listen: 1, attach: 8, traffic: 7, evil: 2, stateful: 2, detach: 5, badStart: 1},
-	"C24": {listen: 6, attach: 8, traffic: 1, evil: 1, stateful: 0, detach: 6, badStart: 1},
-	"C25": {listen: 6, attach: 7, traffic: 2, evil: 2, stateful: 1, detach: 7, badStart: 1},
+	"C20": {listen: 1, attach: 5, traffic: 8, evil: 6, stateful: 6, detach: 2, badStart: 2, gate: 2},
+	"C22": {listen: 1, attach: 8, traffic: 7, evil: 2, stateful: 2, detach: 5, badStart: 1, gate: 3},
+	"C24": {listen: 6, attach: 8, traffic: 1, evil: 1, stateful: 0, detach: 6, badStart: 1, gate: 4},
+	"C25": {listen: 6, attach: 7, traffic: 2, evil: 2, stateful: 1, detach: 7, badStart: 1, gate: 4},
 }
 
 func (w *world) lastRecv(s *scall) (uint64, bool) {
@@ -895,10 +1064,47 @@ func (w *world) seqFor(s *scall, style int) uint64 {
 func (w *world) script(nops int, pf profile) {
 	np := len(w.peers)
 	const maxL, maxS = 7, 12
-	total := pf.listen + pf.attach + pf.traffic + pf.evil + pf.stateful + pf.detach + pf.badStart
+	total := pf.listen + pf.attach + pf.traffic + pf.evil + pf.stateful + pf.detach + pf.badStart + pf.gate
+	ttlL := map[*lcall]int{}
+	ttlS := map[*scall]int{}
 	for i := 0; i < nops; i++ {
+		// gates stay closed for 1-4 further operations
+		for _, l := range w.lcalls {
+			if t, ok := ttlL[l]; ok {
+				if t <= 0 {
+					delete(ttlL, l)
+					w.openL(l)
+				} else {
+					ttlL[l] = t - 1
+				}
+			}
+		}
+		for _, sc := range w.scalls {
+			if t, ok := ttlS[sc]; ok {
+				if t <= 0 {
+					delete(ttlS, sc)
+					w.openS(sc)
+				} else {
+					ttlS[sc] = t - 1
+				}
+			}
+		}
 		x := w.rng.Intn(total)
 		switch {
+		case x >= total-pf.gate:
+			if w.rng.Intn(2) == 0 {
+				if ls := w.freeL(); len(ls) > 0 {
+					l := ls[w.rng.Intn(len(ls))]
+					w.gateL(l)
+					ttlL[l] = 1 + w.rng.Intn(4)
+					w.c.Class("op-gate-listen")
+				}
+			} else if ls := w.freeS(); len(ls) > 0 {
+				sc := ls[w.rng.Intn(len(ls))]
+				w.gateS(sc)
+				ttlS[sc] = 1 + w.rng.Intn(4)
+				w.c.Class("op-gate-session")
+			}
 		case x < pf.listen:
 			if len(w.lcalls) < maxL {
 				w.listenStart(w.rng.Intn(np))
@@ -947,7 +1153,7 @@ func (w *world) script(nops int, pf profile) {
 				}
 			}
 		case x < pf.listen+pf.attach+pf.traffic+pf.evil:
-			ls := w.liveS()
+			ls := w.freeS()
 			if len(ls) == 0 {
 				continue
 			}
@@ -961,8 +1167,15 @@ func (w *world) script(nops int, pf profile) {
 				w.sessReq(s, w.seqFor(s, 0), w.rSend(w.newMsg(s.src, kinds[w.rng.Intn(len(kinds))], uint64(1+w.rng.Intn(3)))))
 				w.c.Class("op-send-unverifiable")
 			case 2:
-				w.sessReq(s, w.seqFor(s, 1), w.rSend(w.newMsg(s.src, "good", uint64(1+w.rng.Intn(3)))))
-				w.c.Class("op-send-stale-epoch")
+				if w.rng.Intn(2) == 0 {
+					// session_seqno 0 is not encoded on the wire (proto3 default) and must still be read as 0
+					w.sessReq(s, w.seqFor(s, 0), rAck(uint64(100+w.rng.Intn(4))))
+					w.sessReq(s, 0, w.rSend(w.newMsg(s.src, "good", uint64(1+w.rng.Intn(3)))))
+					w.c.Class("op-send-epoch-zero-after-current")
+				} else {
+					w.sessReq(s, w.seqFor(s, 1), w.rSend(w.newMsg(s.src, "good", uint64(1+w.rng.Intn(3)))))
+					w.c.Class("op-send-stale-epoch")
+				}
 			case 3:
 				w.sessReq(s, w.seqFor(s, 2), w.rSend(w.newMsg(s.src, "good", uint64(1+w.rng.Intn(3)))))
 				w.c.Class("op-send-future-epoch")
@@ -992,7 +1205,7 @@ func (w *world) script(nops int, pf profile) {
 		case x < pf.listen+pf.attach+pf.traffic+pf.evil+pf.stateful:
 			// stateful attacker: variants derived from what this stream submitted before
 			var cands []*scall
-			for _, s := range w.liveS() {
+			for _, s := range w.freeS() {
 				if s.lastSent != nil {
 					cands = append(cands, s)
 				}
@@ -1011,11 +1224,11 @@ func (w *world) script(nops int, pf profile) {
 			w.c.Class("op-derived-" + how)
 		case x < pf.listen+pf.attach+pf.traffic+pf.evil+pf.stateful+pf.detach:
 			if w.rng.Intn(3) == 0 {
-				if ls := w.liveL(); len(ls) > 0 {
+				if ls := w.freeL(); len(ls) > 0 {
 					w.listenCancel(ls[w.rng.Intn(len(ls))])
 					w.c.Class("op-listen-cancel")
 				}
-			} else if ls := w.liveS(); len(ls) > 0 {
+			} else if ls := w.freeS(); len(ls) > 0 {
 				w.sessCancel(ls[w.rng.Intn(len(ls))])
 				w.c.Class("op-session-cancel")
 			}
@@ -1050,6 +1263,7 @@ func (w *world) script(nops int, pf profile) {
 
 // finish optionally ends every call (C25 "no leftover state") and emits the case.
 func (w *world) finish(endAll bool) {
+	w.openAll()
 	if endAll {
 		for _, s := range w.liveS() {
 			w.sessCancel(s)
@@ -1087,7 +1301,7 @@ func (w *world) finish(endAll bool) {
 			case 3:
 				rs[j] = hx.App("SClear", nat(int(r.n)))
 			case 4:
-				if mi := w.byPtr[r.m]; mi != nil {
+				if mi := w.byKey[msgKey(r.m)]; mi != nil {
 					rs[j] = hx.App("SRecv", msgTerm(mi))
 				} else {
 					rs[j] = "(SRecv (Build_msg 0 0 false 0))"
@@ -1264,6 +1478,77 @@ func fixed(c *hx.Ctx) {
 		w.sessReq(a, w.seqFor(a, 0), w.rSend(w.derive(m, "sender")))
 		w.c.Class("fixed-stateful")
 		w.finish(false)
+	}
+	// back-pressure on a listener: A closes and B opens while Send(SetPeer A) is blocked
+	{
+		w := newWorld(c, 4)
+		w.listenStart(3)
+		l := w.lcalls[0]
+		w.gateL(l)
+		a := w.sessStart(0, 0, w.rInit(3), 3, true) // listener parks in Send(SetPeer 0)
+		w.sessCancel(a)
+		w.sessStart(1, 0, w.rInit(3), 3, true)
+		w.openL(l)
+		b2 := w.sessStart(2, 0, w.rInit(3), 3, true)
+		w.gateL(l)
+		w.sessCancel(b2)
+		w.sessStart(0, 0, w.rInit(3), 3, true)
+		w.openL(l)
+		w.c.Class("fixed-gated-listen")
+		w.finish(true)
+	}
+	// a replaced Listen call stalls in Send while its tracker is released and re-created
+	{
+		w := newWorld(c, 3)
+		w.listenStart(1)
+		l1 := w.lcalls[0]
+		w.gateL(l1)
+		s1 := w.sessStart(0, 0, w.rInit(1), 1, true) // L1 parks in Send(SetPeer 0)
+		w.listenStart(1)                              // L2 replaces L1
+		w.listenCancel(w.lcalls[1])
+		w.sessCancel(s1) // tracker released
+		w.listenStart(1) // L3: fresh tracker, nonce 0
+		w.openL(l1)      // L1 resumes: must end with the replaced error
+		w.sessStart(2, 0, w.rInit(1), 1, true)
+		w.c.Class("fixed-gated-listen")
+		w.finish(c.Rng.Intn(2) == 0)
+	}
+	// zero-valued fields right after non-zero ones; a forged packet while the accepted one is still in flight
+	{
+		w := newWorld(c, 3)
+		a := w.sessStart(0, 0, w.rInit(1), 1, true)
+		b := w.sessStart(1, 0, w.rInit(0), 0, true)
+		w.sessReq(a, w.seqFor(a, 0), rAck(9))                          // current epoch tag
+		w.sessReq(a, 0, w.rSend(w.newMsg(0, "good", 1)))               // epoch 0: stale, must be dropped
+		w.sessReq(a, w.seqFor(a, 0), w.rSend(w.newMsg(0, "good", 2))) // non-empty body
+		w.sessReq(a, w.seqFor(a, 0), rUnknown())                       // empty body right after: unexpected message
+		w.c.Class("fixed-wire")
+		_ = b
+		w.finish(false)
+	}
+	{
+		w := newWorld(c, 3)
+		a := w.sessStart(0, 0, w.rInit(1), 1, true)
+		b := w.sessStart(1, 0, w.rInit(0), 0, true)
+		w.gateS(b)
+		m := w.newMsg(0, "good", 1)
+		w.sessReq(a, w.seqFor(a, 0), w.rSend(m)) // b takes it and parks in Send before marshalling
+		w.sessReq(a, w.seqFor(a, 0), w.rSend(w.derive(m, "body")))
+		w.openS(b)
+		w.c.Class("fixed-wire")
+		w.finish(false)
+	}
+	{
+		w := newWorld(c, 3)
+		a := w.sessStart(0, 0, w.rInit(1), 1, true)
+		b := w.sessStart(1, 0, w.rInit(0), 0, true)
+		w.gateS(a)
+		w.sessReq(b, w.seqFor(b, 0), w.rSend(w.newMsg(1, "good", 4))) // a parks in Send(RecvMsg)
+		b2 := w.sessStart(1, 0, w.rInit(0), 0, true)                   // epoch changes while a is parked
+		w.sessReq(b2, w.seqFor(b2, 0), w.rSend(w.newMsg(1, "good", 5)))
+		w.openS(a)
+		w.c.Class("fixed-gated-session")
+		w.finish(true)
 	}
 	// malicious client
 	{
